@@ -23,6 +23,7 @@ import (
 	"github.com/lindb/roaring"
 
 	"github.com/lindb/lindb/flow"
+	"github.com/lindb/lindb/internal/verifhook"
 	"github.com/lindb/lindb/pkg/encoding"
 	"github.com/lindb/lindb/pkg/imap"
 	"github.com/lindb/lindb/pkg/timeutil"
@@ -269,6 +270,7 @@ func (idx *timeSeriesIndex) Load(
 			buf, ok := fm.getPage(memTimeSeriesID)
 			if ok {
 				fm.Reset(buf)
+				verifhook.Yield("memdb.timeSeriesIndex.load.afterResetPage")
 				ctx.DownSampling(slotRange, seriesIdxFromQuery, int(fm.field.Index), fm)
 			}
 		}
